@@ -25,6 +25,7 @@ def main(tier, replay=None):
     sc.replay_behaviours("N4W3S5_2eng", {"N": 4, "Workers": 3, "Steps": 5, "MaxPn": 16, "EngTypes": "TwoEngines", "EngNeed": "TwoNeed"}, 120 if q else 1500, 20)
     if not q:
         sc.replay_behaviours("N5W4S6", {"N": 5, "Workers": 4, "Steps": 6, "MaxPn": 20}, 1500, 24)
+    S.binding_selftest(sc)
     # beyond the bounds of TLC: the lock protocol's core (ApaLocks.tla) has an inductive invariant for every number of ensembles and
     # workers up to the module's MaxN / MaxW (symbolic constants, Apalache)
     from harness import tlc
